@@ -67,12 +67,16 @@ package crypto
 //@   modifies nothing
 //@   ensures [shared] result != nil && fresh(result) && InGroup(*result) && Dlog(*result) == mulL(ScalarDec(seq(*priv)), PointDec(seq(*pub)))
 
-//@ -- ASSUMED (T-HASH): HashScalar is a function of the encoding of the point and of the output index (uvarint, two rounds of
-//@ -- blake3 + SetUniformBytes, which cannot fail on 64 bytes); it returns a new reduced scalar and writes nothing else.
-//@ assume func HashScalar(k, outputIndex)
+//@ -- ASSUMED (T-HASH): the scalar HashScalar returns is a function HS of the encoding of the point and of the output index
+//@ -- (uvarint of the index appended to the point bytes, two rounds of blake3 + SetUniformBytes).
+//@ -- VERIFIED: it never panics (SetUniformBytes gets 64 bytes both times, the uvarint buffer is large enough), writes nothing that
+//@ -- existed before and returns a new scalar. Its VALUE (`assumes`) is not verified against the body.
+//@ func HashScalar(k, outputIndex)
+//@   property C32
 //@   requires k != nil
 //@   modifies nothing
-//@   ensures result != nil && fresh(result) && ScalarVal(*result) == HS(EncOf(*k), outputIndex)
+//@   ensures [new-scalar] result != nil && fresh(result)
+//@   assumes ScalarVal(*result) == HS(EncOf(*k), outputIndex)
 
 //@ -- P = B + Hs(r*A, i)*G
 //@ func DeriveGhostPublicKey(r, A, B, outputIndex)
